@@ -19,6 +19,30 @@ ForceOnlyLiftsWsym == LET on == [case EXCEPT !.force = TRUE]  offc == [case EXCE
 \* options the report does not mention never change what it promises
 NeutralOptionsAreNeutral == \A o \in NeutralOpts \cup {""} : LET x == [case EXCEPT !.nopt = o] IN
                                Expect(x) = Expect(case) /\ Failing(x) = Failing(case)
+\* round 5.  Two encodings of one operator (axis counted from the end, SLICE size -1) get one verdict, one set of failing /
+\* undecided bullets and one output shape
+EquivalentEncodingsSameExpect ==
+    \A e \in Encodings(case) : /\ Expect(e) = Expect(case) /\ Failing(e) = Failing(case) /\ Undecided(e) = Undecided(case)
+                                /\ Ofm(e) = Ofm(case) /\ Canon(e) = Canon(case)
+\* broadcasting aligns the TRAILING dimensions: writing the leading 1s of the shorter operand out changes nothing, nor does
+\* the order of the operands; where the second operand comes from (constant / run time) is not mentioned by any bullet
+\* (BcRef: the same rule written without Ext, counting positions from the end - a second formulation the first is checked against)
+BcRef(c) == LET n1 == Len(c.s1)  n2 == Len(c.s2)  no == Len(c.so) IN
+            \A k \in 1..no : LET a == IF k <= n1 THEN c.s1[n1 - k + 1] ELSE 1
+                                  b == IF k <= n2 THEN c.s2[n2 - k + 1] ELSE 1
+                              IN (a = b \/ a = 1 \/ b = 1) /\ c.so[no - k + 1] = Max(a, b)
+BroadcastIsTrailingAligned ==
+    (case.op \in BcOps /\ case.s1 # <<>> /\ case.s2 # <<>>) =>
+        LET r == BcRank(case)
+            full == [case EXCEPT !.s1 = Ext(case.s1, r), !.s2 = Ext(case.s2, r)]
+            swap == [case EXCEPT !.s1 = case.s2, !.s2 = case.s1]
+        IN /\ Len(case.so) = r => Broadcast(case) = T3(BcRef(case))
+           /\ Broadcast(case) = Broadcast(full) /\ Broadcast(case) = Broadcast(swap)
+           /\ Eval("batch", case) = Eval("batch", full)
+           /\ (Len(case.so) = r /\ \E i \in 1..r : Ext(case.s1, r)[i] # Ext(case.s2, r)[i] /\ Ext(case.s1, r)[i] # 1 /\ Ext(case.s2, r)[i] # 1)
+                  => Broadcast(case) = "F"
+SecondOperandOriginIsNeutral == LET x == [case EXCEPT !.c2const = ~case.c2const] IN
+                                   Expect(x) = Expect(case) /\ Failing(x) = Failing(case)
 \* an operator that may be eliminated as a no-op is never one that has to stay on the CPU for its shape alone
 NoOpIsIdentity == NoOp(case) => Ifm(case) = Ofm(case)
 WellFormed == /\ case.op \in K4 => (OH(case) >= 1 /\ OW(case) >= 1 /\ case.sh >= 1 /\ case.sw >= 1)
